@@ -188,3 +188,25 @@ def jobs(tier, seed):
         jobs.append({"harness": "typo", "params": {"mode": "smartquotes", "scaffold": ["\"", H("a"), "\" '", H("b"), "' \"c\"\n"], "spec": tspec, "quotes": "list",
                                                     "quote_list": ql, "name": "list-form"}, "weight": 6, "cpu_cap": 2400, "wall_cap": 3600})
     return jobs
+
+
+def thorough_extra(seed):
+    jobs = []
+    tspec = {n: {"alphabet": TYPO} for n in "abcdefgh"}
+    anyspec = {n: {"exclude": "\r\0"} for n in "abcdefgh"}
+    for mode in ("smartquotes", "replacements", "both"):
+        for first in TYPO:
+            sp = {kk: dict(v) for kk, v in tspec.items()}
+            sp["a"] = {"alphabet": first}
+            if mode == "both" and first not in "\"'-.(":
+                continue
+            jobs.append({"harness": "typo", "params": {"mode": mode, "scaffold": free_doc(3, "\n"), "spec": sp, "quotes": None, "name": f"{mode}3-{first!r}"},
+                         "weight": 20, "path_cap": 90})
+        for si, sc in enumerate(SCAFFOLDS):
+            if mode != "replacements":
+                jobs.append({"harness": "typo", "params": {"mode": mode, "scaffold": [("x" if p == H("b") else p) for p in sc], "spec": anyspec, "quotes": "chars",
+                                                            "name": "ctx-symquotes"}, "weight": 12, "path_cap": 90})
+    for j in jobs:
+        j["cpu_cap"] = 6000
+        j["wall_cap"] = 7200
+    return jobs
